@@ -85,13 +85,15 @@ fn nt_c03(c: &Case, out: &Outcome, h: &Hist) -> bool {
 }
 
 // ---------------------------------------------------------------- C04
-/// One hub whose output is connected to 260-330 leaf models: a single send wakes more tasks
+/// One hub whose output is connected to 260-330 (or 420-560) leaf models: a single send wakes more tasks
 /// than a worker's local queue holds (256), so the overflow to the injector queue, the bucket
 /// hand-over and the "last worker re-checks the injector" path of the idle protocol run.
 fn gen_fanout_bench(rng: &mut Rng) -> Case {
     let o = BenchOpts { min_nodes: 1, max_nodes: 1, queries: false, sources: false, init_ops: false, max_kinds: 1, max_ops: 0, ..Default::default() };
     let mut c = gen::gen_bench(rng, &o);
-    let leaves = rng.range(260, 330) as usize;
+    // 40 %: enough leaves for the local queue (256 slots, half of it moved out per overflow) to
+    // overflow twice, so that a bucket is pushed while another worker pops the previous one.
+    let leaves = if rng.pct(40) { rng.range(420, 560) } else { rng.range(260, 330) } as usize;
     c.nodes.clear();
     let port: Vec<Edge> = (0..leaves).map(|i| Edge { cid: 60_000 + i as u32, target: Target::Node((i + 1) as u16), map: i % 7 == 0, filter: None }).collect();
     c.nodes.push(NodeSpec { name: "hub".into(), parent: None, cap: 16, registered: true, dead: false, outs: vec![port], reqs: vec![], init: vec![], on: vec![vec![Op::Send { port: 0, kind: 0 }]], panic_at: None, late_mailbox: false, reply_take: None, sync_inputs: false });
@@ -108,7 +110,7 @@ fn gen_fanout_bench(rng: &mut Rng) -> Case {
 }
 
 fn gen_c04(rng: &mut Rng, thorough: bool) -> Case {
-    if rng.below(1000) < (if thorough { 5 } else { 2 }) {
+    if rng.below(1000) < (if thorough { 6 } else { 4 }) {
         return gen_fanout_bench(rng);
     }
     let burst = rng.pct(if thorough { 6 } else { 3 });
